@@ -14,6 +14,7 @@ import (
 	"github.com/cinar/indicator/v2/helper"
 	"pgregory.net/rapid"
 	"verif/harness/engine"
+	"verif/harness/pipe"
 	"verif/harness/stub"
 )
 
@@ -42,10 +43,12 @@ type Op struct {
 	// Batch2: second batch of an "overlap" operation (two Append calls on one asset overlapping in
 	// time: the first is held half-way while the second runs to completion)
 	Batch2 []Snap `json:"batch2,omitempty"`
-	Bound int    `json:"bound,omitempty"` // day offset of the GetSince bound
+	Bound  int    `json:"bound,omitempty"` // day offset of the GetSince bound
 	// Sec, Zone: the bound is Sec seconds into that UTC day, presented in a zone Zone quarter
 	// hours east of UTC (the backtest passes a time.Now()-derived bound; "on or after" is a
 	// comparison of instants)
+	// Src: source asset of a "copy", second asset of a "peek"
+	Src  int `json:"src,omitempty"`
 	Sec  int `json:"sec,omitempty"`
 	Zone int `json:"zone,omitempty"`
 }
@@ -76,13 +79,35 @@ func genCase(t *rapid.T) Case {
 	n := rapid.IntRange(1, 14).Draw(t, "ops")
 	last := map[int]int{} // name -> last day appended
 	var dates []int
+	touched := map[int]bool{}
 	c := Case{}
 	for i := 0; i < n; i++ {
-		k := rapid.SampledFrom([]string{"append", "append", "append", "append", "get", "since", "since", "last", "assets", "touch", "overlap"}).Draw(t, "k")
+		k := rapid.SampledFrom([]string{"append", "append", "append", "append", "get", "since", "since", "last", "assets", "touch", "overlap", "copy", "peek"}).Draw(t, "k")
 		op := Op{K: k, Name: rapid.IntRange(0, 3).Draw(t, "name")}
 		switch k {
+		case "copy":
+			// Append(dst, GetSince(src, bound)) within one repository: the read is still open while
+			// the write runs. dst is a name that holds nothing yet (keeps every list date-ordered).
+			op.Src = rapid.IntRange(0, 2).Draw(t, "src")
+			op.Name = (op.Src + 1 + rapid.IntRange(0, 1).Draw(t, "dst")) % 3
+			if _, used := last[op.Name]; used || touched[op.Name] {
+				op.K = "get"
+				break
+			}
+			if len(dates) > 0 {
+				op.Bound = rapid.SampledFrom(dates).Draw(t, "cdate")
+			}
+			if d, ok := last[op.Src]; ok && d >= op.Bound {
+				last[op.Name] = d
+			} else {
+				touched[op.Name] = true // dst may or may not have become known: keep clear of it
+			}
+		case "peek":
+			op.Name = rapid.IntRange(0, 2).Draw(t, "pname")
+			op.Src = rapid.IntRange(0, 2).Draw(t, "pother")
 		case "touch":
 			op.Name = rapid.IntRange(0, 2).Draw(t, "tname")
+			touched[op.Name] = true
 		case "append", "overlap":
 			op.Name = rapid.IntRange(0, 2).Draw(t, "aname") // NEVER is never appended
 			m := rapid.IntRange(0, 5).Draw(t, "batch")
@@ -173,6 +198,19 @@ func prop(mk repoMaker) engine.AnyProp {
 	return engine.Prop[Case]{
 		ID: "C10", Subject: mk.name, Gen: genCase,
 		Check: func(c Case) engine.Outcome {
+			var o engine.Outcome
+			if verdict, detail := pipe.Call(func() { o = run(mk, c) }); verdict != "ok" {
+				o = engine.Outcome{}
+				o.Failf("%s: the history %v never finished: %s: %s", mk.name, c.Ops, verdict, detail)
+			}
+			return o
+		},
+	}
+}
+
+func run(mk repoMaker, c Case) engine.Outcome {
+	{
+		{
 			var o engine.Outcome
 			repo, cleanup, err := mk.open()
 			if err != nil {
@@ -390,6 +428,67 @@ func prop(mk repoMaker) engine.AnyProp {
 					known[nm] = true
 					appendsTo[nm] += 2
 					o.Add("overlapping_append_pairs", 1)
+				case "copy":
+					src := names[op.Src]
+					if !known[src] || len(model[nm]) > 0 || known[nm] {
+						break
+					}
+					ch, err := repo.GetSince(src, day0.AddDate(0, 0, op.Bound))
+					if err != nil {
+						if len(model[src]) > 0 {
+							o.Failf("%s step %d: GetSince(%q) failed: %v", mk.name, i, src, err)
+							return o
+						}
+						break
+					}
+					if err := repo.Append(nm, ch); err != nil {
+						o.Failf("%s step %d: Append(%q, GetSince(%q, day %d)) failed: %v", mk.name, i, nm, src, op.Bound, err)
+						return o
+					}
+					for _, sn := range model[src] {
+						if sn.Day >= op.Bound {
+							model[nm] = append(model[nm], sn)
+						}
+					}
+					known[nm] = true
+					appendsTo[nm]++
+					o.Add("copies_within_one_repository", 1)
+				case "peek":
+					// a Get stream is left open after its first snapshot while other calls are made
+					if len(model[nm]) < 2 {
+						break
+					}
+					ch, err := repo.Get(nm)
+					if err != nil {
+						o.Failf("%s step %d: Get(%q) failed: %v", mk.name, i, nm, err)
+						return o
+					}
+					got := []*asset.Snapshot{<-ch}
+					other := names[op.Src]
+					if ld, err := repo.LastDate(nm); err != nil || !ld.Equal(day0.AddDate(0, 0, model[nm][len(model[nm])-1].Day)) {
+						o.Failf("%s step %d: LastDate(%q) while a Get stream is open = %v, %v", mk.name, i, nm, ld, err)
+						return o
+					}
+					if _, err := repo.Assets(); err != nil {
+						o.Failf("%s step %d: Assets while a Get stream is open: %v", mk.name, i, err)
+						return o
+					}
+					if known[other] {
+						if och, err := repo.Get(other); err == nil {
+							if msg := compare(fmt.Sprintf("%s step %d: Get(%q) while a Get(%q) stream is open", mk.name, i, other, nm), helper.ChanToSlice(och), model[other]); msg != "" {
+								o.Failf("%s", msg)
+								return o
+							}
+						}
+					}
+					for sn := range ch {
+						got = append(got, sn)
+					}
+					if msg := compare(fmt.Sprintf("%s step %d: Get(%q) read in two parts", mk.name, i, nm), got, model[nm]); msg != "" {
+						o.Failf("%s", msg)
+						return o
+					}
+					o.Add("reads_left_open_across_other_calls", 1)
 				case "since":
 					lastBound, lastSec, lastZone = op.Bound, op.Sec, op.Zone
 				case "touch":
@@ -412,7 +511,7 @@ func prop(mk repoMaker) engine.AnyProp {
 			o.Add("operations", len(c.Ops))
 			o.Key = fmt.Sprint(c.Ops)
 			return o
-		},
+		}
 	}
 }
 
